@@ -391,6 +391,62 @@ theorem locked_never_bad (s : Sys Nat) (h : Exec 4 dia s) : s.hist ≠ badHistor
   intro heq
   exact unlocked_not_linearizable (heq ▸ linearizable' dia s h)
 
+/-! ### the lock makes a many-step critical section atomic -/
+
+/-- **the critical section is atomic**: in every execution of the fine-grained system (any number
+    of clients, any interleaving, any micro-steps), whenever a client is inside its critical
+    section the shared state is exactly its own micro-steps applied to the state it found when it
+    acquired the lock — no step of any other client has intervened; and at most one client is inside -/
+theorem critical_section_atomic {σ : Type} (g0 : σ) (s : GSys σ) (h : GExec g0 s) :
+    (∀ t start tr, s.pc t = .crit start tr → s.g = tr.foldl (fun a f => f a) start) ∧
+    (∀ t u, (s.pc t).isCrit = true → (s.pc u).isCrit = true → t = u) := by
+  have hi := ginv g0 s h
+  refine ⟨hi.atomic, ?_⟩
+  intro t u ht hu
+  have h1 := hi.mutex t ht
+  have h2 := hi.mutex u hu
+  rw [h1] at h2
+  exact Option.some.inj h2
+
+omit [DecidableEq V] in
+/-- the micro-steps of `Artifact(i)`, applied one after the other with nothing in between, are
+    exactly the sequential specification's `Eval` -/
+theorem artifactTrace_eval (g : Graph V) (hac : Acyclic F g) (i : Nat) (s : SNode V) (hs : g i = .struct s)
+    (ho : Outdated F g i = true) :
+    (artifactTrace F i s g s.deps []).foldl (fun a f => f a) g = (Eval F g i).1 := by
+  obtain ⟨rank, hwf⟩ := hac
+  have hgen : ∀ (ds : List Nat) (g1 : Graph V) (vals : List V),
+      (artifactTrace F i s g1 ds vals).foldl (fun a f => f a) g1 =
+        (pull (Eval F) g1 ds).1.set i (.struct (s.executed (pull (Eval F) g1 ds).1 (vals ++ (pull (Eval F) g1 ds).2.1))) := by
+    intro ds
+    induction ds with
+    | nil => intro g1 vals; simp [artifactTrace, pull]
+    | cons d ds ih =>
+      intro g1 vals
+      simp only [artifactTrace, List.foldl_cons, pull]
+      rw [ih]
+      simp
+  rw [Eval_eq g hwf, hs]
+  simp only [ho, if_true]
+  rw [hgen]
+  simp
+
+omit [DecidableEq V] in
+/-- hence, with the lock: a client that performs the micro-steps of `Artifact(i)` inside its
+    critical section leaves exactly `seqStep`'s state, whatever the other clients do meanwhile -/
+theorem locked_artifact_is_atomic (g0 : Graph V) (sy : GSys (Graph V)) (h : GExec g0 sy) (t : Tid)
+    (start : Graph V) (i : Nat) (s : SNode V) (hac : Acyclic F start) (hs : start i = .struct s)
+    (ho : Outdated F start i = true) (hpc : sy.pc t = .crit start (artifactTrace F i s start s.deps [])) :
+    sy.g = (seqStep F start (.artifact i)).1 := by
+  rw [(critical_section_atomic g0 sy h).1 t start _ hpc, artifactTrace_eval start hac i s hs ho]
+  rfl
+
+/-- a concrete execution of the fine-grained system with two clients: client 0 is inside its
+    critical section (two micro-steps done) while client 1 is waiting for the lock -/
+example : ∃ s : GSys Nat, GExec 0 s ∧ s.g = 12 ∧ (s.pc 0).isCrit = true ∧ (s.pc 1).isCrit = false := by
+  refine ⟨_, .step (.step (.step (.step (.step .init (.request _ 0 rfl)) (.request _ 1 rfl))
+    (.acquire _ 0 rfl rfl)) (.micro _ 0 0 [] (· + 5) rfl)) (.micro _ 0 0 [(· + 5)] (· + 7) rfl), rfl, rfl, rfl⟩
+
 /-! ### non-vacuity: a concrete interleaved execution of the locked system -/
 
 example : Init 4 dia := by
